@@ -39,6 +39,10 @@ def main():
             meta = json.load(open(os.path.join(HERE, 'seeded', d, 'meta.json')))
             caught = {c: v['mechanisms'][:3] for c, v in res.get('checks', {}).items() if v['exit'] == 1}
             ok = bool(caught)
+            if not ok and meta.get('outside_property'):
+                print('OUTSIDE  %s (judged not to break the property as stated, see its meta.json)' % d, flush=True)
+                rows.append((d, 'outside the property as stated: ' + meta['outside_property'][:120], {}, None))
+                continue
             if not ok and meta.get('obsolete') and res.get('demo_mutant', {}).get('exit') == 0:
                 print('OBSOLETE %s (its demonstration passes with the change on the current tree)' % d, flush=True)
                 rows.append((d, 'obsolete: ' + meta['obsolete'][:90], {}, None))
